@@ -429,6 +429,10 @@ def history_oracle(c, stats=None):
                 continue
             if s["iop"] == "/=" and tc == "i":
                 operand = 2
+            if s["k"] % 3 == 0 and s["iop"] in ("+=", "-=", "*="):
+                # matrix operand: same size for +=/-=, conforming square matrix for *= (refused or done in place, never rebound)
+                one = {"i": 1, "d": 1.0, "z": 1 + 0j}[tc]
+                operand = matrix(one, A.size if s["iop"] != "*=" else (A.size[1], A.size[1]), tc)
             B = A
             try:
                 if s["iop"] == "+=":
